@@ -8,6 +8,7 @@ import (
 	"encoding/json"
 	"flag"
 	"fmt"
+	"go/token"
 	"golang.org/x/tools/go/ssa"
 	"os"
 	"path/filepath"
@@ -247,6 +248,41 @@ func tryNormalForms(id, tier, repo string, rep *Report, known *KnownFile) (*Repo
 			}
 		}
 	}
+	for n := range rep.c.roleFns {
+		anch[n] = true
+	}
+	// A violated obligation whose construct is a function's own body ("defaultValueText (..): nil only for a nil
+	// argument") is a complaint about that body: inlining the function would take the body out of the rule's
+	// sight, not decide it. Rules whose verdict depends on where the code sits (who may add a path segment,
+	// who writes into what it was handed, who writes the registry, what a transaction writes) are the exception:
+	// for them the same code inlined into its caller is judged in the caller's role.
+	contextual := func(rule string) bool {
+		for _, p := range []string{"C05.OWNDATA", "C12.APPDATA", "C06.G", "C06.ONCE", "C19.", "C20.", "C14.W", "C17.TABLES", "C02.BINDARM", "C08.META", "C12.SHARED", "C16.REFPURE", "C13.REFS", "C11.PURE", "C09.FROZEN", "C01.SKIP"} {
+			if strings.HasPrefix(rule, p) {
+				return true
+			}
+		}
+		return false
+	}
+	for _, o := range open {
+		if o.Status != Violated || contextual(o.Rule) {
+			continue
+		}
+		key := o.Key
+		if i := strings.Index(key, " "); i > 0 {
+			if j := strings.Index(key, ":"); j > 0 && j < i {
+				i = j
+			}
+			key = key[:i]
+		}
+		key = strings.TrimSuffix(key, ":")
+		if k := strings.LastIndex(key, "."); k >= 0 {
+			key = key[k+1:]
+		}
+		if key != "" {
+			anch[key] = true
+		}
+	}
 	var text strings.Builder
 	for _, o := range open {
 		text.WriteString(o.Key + "\n" + o.Detail + "\n" + strings.Join(o.Path, "\n") + "\n")
@@ -292,9 +328,37 @@ func tryNormalForms(id, tier, repo string, rep *Report, known *KnownFile) (*Repo
 			mentioned[fn.Name()] = true
 		}
 	}
+	// an obligation that names a role ("descents in the type dispatcher") names the function in that role
+	if a := rep.c.anchors(); a != nil {
+		for role, fname := range a.names() {
+			if strings.Contains(openText, role) {
+				mentioned[bareOf(fname)] = true
+			}
+		}
+	}
+	for role, fnames := range map[string][]string{
+		"value writer": {"writeValue", "writeMap"}, "string writer": {"writeString"}, "value reader": {"readValue"}, "string reader": {"readString"},
+		"response former": {"FormErrorsResult"}, "registry": {"AddEvent", "Unsubscribe", "subscribe"}, "evaluator": {"skipSel"},
+		"loader": {"ParseReader", "AddTypes", "addTypes", "addExtends"}, "printer": {"SDL"},
+	} {
+		if strings.Contains(openText, role) {
+			for _, f := range fnames {
+				mentioned[f] = true
+			}
+		}
+	}
 	seen := map[string]bool{}
 	for f := range rep.FuncsSeen {
 		seen[bareOf(f)] = true
+	}
+	// when an anchor is missing the rules examined nothing: what the anchors that were found call
+	if a := rep.c.anchors(); a != nil && len(a.missing) > 0 {
+		av := reflect.ValueOf(a).Elem()
+		for i := 0; i < av.NumField(); i++ {
+			if av.Field(i).Type() == reflect.TypeOf((*ssa.Function)(nil)) && !av.Field(i).IsNil() {
+				seen[(*ssa.Function)(av.Field(i).UnsafePointer()).Name()] = true
+			}
+		}
 	}
 	v1 := func(name string) bool { b := bareOf(name); return !anch[b] && mentioned[b] }
 	v2 := func(name string) bool {
@@ -336,12 +400,50 @@ func tryNormalForms(id, tier, repo string, rep *Report, known *KnownFile) (*Repo
 			onlyLostGrip = false
 		}
 	}
-	for vi, v := range []struct {
+	type variant struct {
 		name string
 		pick func(string) bool
-	}{{"helpers the open obligations name", v1}, {"helpers called by the functions the open obligations name", v2}, {"helpers called by any function the rules examined", v3}} {
-		if vi == 2 && !onlyLostGrip {
-			continue // the widest selection is for rules that found nothing to examine
+		wide bool
+	}
+	callers := map[string]map[string]bool{}
+	for from, cs := range callees {
+		for b := range cs {
+			if callers[b] == nil {
+				callers[b] = map[string]bool{}
+			}
+			callers[b][from] = true
+		}
+	}
+	// the helpers with a single calling function are what "extract method" leaves behind
+	v2narrow := func(name string) bool {
+		b := bareOf(name)
+		return v1(name) || (v2(name) && len(callers[b]) <= 3)
+	}
+	variants := []variant{{"helpers the open obligations name", v1, false},
+		{"helpers with at most three calling functions among those called by the functions the open obligations name", v2narrow, false}}
+	// one helper at a time, among those the examined functions call
+	var singles []string
+	for _, fn := range c.allFns {
+		if fn.Parent() != nil {
+			continue
+		}
+		b := fn.Name()
+		if len(callers[b]) == 1 && v3(fnName(fn)) && !token.IsExported(b) {
+			singles = append(singles, b)
+		}
+	}
+	sort.Strings(singles)
+	if len(singles) > 10 {
+		singles = singles[:10]
+	}
+	for _, b := range singles {
+		b := b
+		variants = append(variants, variant{"the helper " + b + " alone", func(name string) bool { return bareOf(name) == b && !anch[b] }, true})
+	}
+	variants = append(variants, variant{"helpers called by any function the rules examined", v3, true})
+	for _, v := range variants {
+		if v.wide && !onlyLostGrip {
+			continue // the wider selections are for rules that found nothing to examine
 		}
 		nf, err := normalForm(repo, v.pick)
 		att := map[string]interface{}{"selection": v.name}
@@ -382,6 +484,44 @@ func tryNormalForms(id, tier, repo string, rep *Report, known *KnownFile) (*Repo
 		}
 		attempts = append(attempts, att)
 		if len(open2) == 0 {
+			// the normal form must decide what was open, not lose it: an obligation that was violated on the text
+			// as written is there again, discharged, unless its construct is one of the inlined helpers
+			lost := ""
+			have := map[string]Status{}
+			for _, o := range rep2.Obls {
+				have[o.Rule+"|"+o.Key] = o.Status
+			}
+			for _, o := range open {
+				if o.Status != Violated {
+					continue
+				}
+				if _, ok := have[o.Rule+"|"+o.Key]; ok {
+					continue
+				}
+				namesInlined := false
+				// only where the construct is described through the helper (a value "coerceArgIn()#0", an error
+				// source "Root.resolveElem#1") or the rule judges code by where it sits
+				if !(contextual(o.Rule) || strings.HasPrefix(o.Rule, "C04.ARMS") || strings.HasPrefix(o.Rule, "C10.REQVAR") || strings.HasPrefix(o.Rule, "C01.OP")) {
+					lost = o.Rule + " | " + o.Key
+					continue
+				}
+				for _, in := range nf.inlined {
+					name := in[:strings.Index(in, " (")]
+					if strings.Contains(o.Key, name) || strings.Contains(o.Key, bareOf(name)+"#") || strings.Contains(o.Key, bareOf(name)+"()") {
+						namesInlined = true
+					}
+				}
+				if !namesInlined {
+					lost = o.Rule + " | " + o.Key
+				}
+			}
+			if lost != "" {
+				att["rejected"] = "the obligation " + lost + " is not decided on this normal form (it is gone, not discharged)"
+				if os.Getenv("NF_DEBUG") != "" {
+					fmt.Fprintf(os.Stderr, "   rejected: %s lost\n", lost)
+				}
+				continue
+			}
 			var was []string
 			for _, o := range open {
 				was = append(was, o.Rule+" | "+o.Key)
